@@ -121,7 +121,7 @@ def shard(part, shard_i, nshards, tier, seed, deadline):
     ilv.install()
     for i, h in enumerate(harnesses(tier)):
         if (i + seed) % nshards == shard_i:
-            ilvrun.explore_all(part, [h], 0, 1, PB_of(tier, h), 0, deadline, horizon=5.0)
+            ilvrun.explore_all(part, [h], 0, 1, PB_of(tier, h), 0, deadline, horizon=5.0, coarse_pb=2 if tier == "quick" else 3)
 
 
 def run_part(ctx):
